@@ -116,7 +116,8 @@ def assign_case(draw, tier="quick"):
         idxs = [i % n for i in raw] if (n and all(-n <= i < n for i in raw)) else None
     m = len(idxs) if idxs is not None else draw(st.integers(0, 3))
     # value
-    cls = draw(st.sampled_from(["same", "same", "narrower", "wider", "wider", "incompatible", "none", "mixed_wider"]))
+    cls = draw(st.sampled_from(["same", "same", "narrower", "wider", "wider", "incompatible", "none", "mixed_wider",
+                                "none_then_wider", "wider_then_none"]))
     vkind = kind
 
     def elems(k_):
@@ -150,6 +151,10 @@ def assign_case(draw, tier="quick"):
         # a None next to the odd element (before or after it)
         free = [i for i in range(len(seq)) if not (odd_set and i == pos)]
         seq[draw(st.sampled_from(free))] = None
+    if cls in ("none_then_wider", "wider_then_none") and kind in LADDER_UP and len(seq) >= 2:
+        wv = draw(elems(draw(st.sampled_from(LADDER_UP[kind]))))
+        a_, b_ = sorted(draw(st.lists(st.integers(0, len(seq) - 1), min_size=2, max_size=2, unique=True)))
+        seq[a_], seq[b_] = (None, wv) if cls == "none_then_wider" else (wv, None)
     if cls == "mixed_wider" and kind in ("int", "bool", "float") and len(seq) >= 2:
         ups = LADDER_UP[kind]
         seq[0] = draw(elems(ups[0]))
@@ -461,7 +466,9 @@ def table_case(draw, tier="quick"):
         if bad == "type" and w and hh:
             block[w - 1][hh - 1] = date(2020, 1, 1)
         vals = {"block": block}
-    return {"cols": cols, "form": form, "r": r, "c": c, "r0": r0, "r1": r1, "c0": c0, "c1": c1, "byname": byname, "vals": vals}
+    swap = draw(st.sampled_from([None, None, "swap", "rotate", "fresh"])) if k >= 2 else None
+    return {"cols": cols, "form": form, "r": r, "c": c, "r0": r0, "r1": r1, "c0": c0, "c1": c1, "byname": byname, "vals": vals,
+            "view_renames": swap}
 
 
 def _widened_cell(o, g):
@@ -479,6 +486,24 @@ def run_table(case, ctx):
     cols = case["cols"]
     n, k = len(cols[0][1]), len(cols)
     t = R.build_table(cols)
+    if case.get("view_renames"):
+        # rename columns through their live views (no attribute access / dir() afterwards): the names move to other columns
+        names = [nm for nm, _ in cols]
+        if case["view_renames"] == "swap":
+            new_names = [names[1], names[0]] + names[2:]
+        elif case["view_renames"] == "rotate":
+            new_names = names[1:] + names[:1]
+        else:
+            new_names = [f"n{j}" for j in range(len(names))]
+        views = [t.cols()[j] for j in range(len(names))]
+        for j, vw in enumerate(views):
+            vw.name = f"tmp{j}"
+        for j, vw in enumerate(views):
+            vw.name = new_names[j]
+        # from here on column j is called new_names[j]; the case addresses columns by position c -> name
+        colname = lambda j: new_names[j]          # noqa: E731
+    else:
+        colname = lambda j: f"c{j}"               # noqa: E731
     before = [[freeze(x) for x in c] for c in t.cols()]
     form, vals = case["form"], case["vals"]
     r, c = case["r"], case["c"]
@@ -487,7 +512,7 @@ def run_table(case, ctx):
     want = {}
     ok_model = True
     if form == "cell":
-        key = (r, f"c{c}" if case["byname"] else c)
+        key = (r, colname(c) if case["byname"] else c)
         value = vals["x"]
         if -n <= r < n:
             addressed = {(r % n, c)}
@@ -504,7 +529,7 @@ def run_table(case, ctx):
             ok_model = False
             addressed = {(r % n, j) for j in range(k)} if -n <= r < n else set()
     elif form == "column":
-        key = (slice(None), f"c{c}" if case["byname"] else c)
+        key = (slice(None), colname(c) if case["byname"] else c)
         value = list(vals["col"])
         addressed = {(i, c) for i in range(n)}
         if len(value) == n:
